@@ -2,10 +2,25 @@
 """Translator: regenerates /verif/lean/ReplicatModel/Generated.lean from /repo's CURRENT working tree.
 
 Everything the Lean theorems depend on that is a constant, a table or a small guard expression of the
-implementation is read here from the source text (Python `ast`, anchored regexes for src/adapters.cpp) and
-emitted as Lean definitions in namespace `Replicat.Gen`.  The model files call these definitions and the
-theorems are proved about whatever they currently say, so an edit to /repo that changes one of them is
-re-checked by the Lean kernel on the next run.
+implementation is read here from the source and emitted as Lean definitions in namespace `Replicat.Gen`.
+The model files call these definitions and the theorems are proved about whatever they currently say, so
+an edit to /repo that changes one of them is re-checked by the Lean kernel on the next run.
+
+The recognisers of this file are SEMANTIC, not textual: a behaviour-preserving rewrite of the source must
+leave every fact as it is (a fact that flips without a behaviour change is a false alarm of the framework).
+
+* Python (`replicat/repository.py`): the methods are executed symbolically, path by path (tools/pyflow.py):
+  locals are resolved through their assignments, helper calls (methods through `self`, nested functions,
+  module-level functions) are followed, `if/else`, early `return`/`continue`, conditional expressions and
+  `try/except/else` all become literals on a path, loops become the paths of one iteration.  A fact is a
+  query over those paths ("every finalisation truncates the file to SIZES[path] before the metadata is
+  restored", "the cached bytes are not used on a path that does not know hash(bytes) == expected", …),
+  never a comparison of statement text or of the names of locals / private helpers.
+* C++ (`src/adapters.cpp`): `next_cut` is parsed into statements and turned into a decision tree
+  (tools/cexpr.py); the guard functions of the model (`isTail`, `tailCut`, `waits`, …) are read off the tree,
+  whatever nesting of `if`/`else`/early returns/`?:`/helper functions produced it.
+* What is really gone comes out `false` / `opaque`; a shape the analysis does not understand also comes out
+  `false` / `opaque` (never a guessed `true`).
 
 Anything that cannot be recognised/translated is emitted as an `opaque` constant together with
 `Gen.<section>Recognised := false`; the dependent bridge lemmas then fail to compile, which the check
